@@ -192,8 +192,16 @@ def formula_text(doc, tref, spec, self_col=None, max_ref=None):
   return '$%s' % c1
 
 
+# reference chains and lookups are what real documents use most: weight them up
+FORM_WEIGHTS = {1: 2, 2: 2, 3: 2, 5: 6, 6: 4, 7: 4, 8: 4, 9: 3, 10: 2, 11: 2, 12: 2, 13: 2, 14: 2, 15: 2, 18: 3,
+                19: 2, 20: 2, 21: 2}
+_FORMS = []
+for _f in range(N_FORMS):
+  _FORMS.extend([_f] * FORM_WEIGHTS.get(_f, 1))
+
+
 def fspec():
-  return st.tuples(st.integers(0, N_FORMS - 1), st.integers(0, 5), st.integers(0, 5), st.integers(0, 5)).map(list)
+  return st.tuples(st.sampled_from(_FORMS), st.integers(0, 5), st.integers(0, 5), st.integers(0, 5)).map(list)
 
 
 # ---------------------------------------------------------------------------
@@ -705,6 +713,13 @@ PROFILES = {
     'add': 8, 'update': 6, 'remove': 2, 'addcol': 3, 'addfcol': 8, 'addref': 3, 'modtype': 14, 'modformula': 2,
     'toggle': 3, 'summary': 4, 'reverse': 2, 'meta_col': 3, 'rmcol': 1, 'copyfrom': 2,
   },
+  # several schema steps in ONE bundle: removal/conversion followed by renames (undo must use the right names)
+  'combo': {
+    'rmcol': 6, 'rencol': 8, 'rentable': 8, 'modtype': 5, 'toggle': 3, 'rmtable': 2, 'meta_col': 4, 'meta_table': 3,
+    'addfcol': 5, 'add': 4, 'update': 3, 'remove': 2, 'summary': 2, 'meta_rmcol': 2, 'addcol': 2, 'rawtitle': 2,
+  },
+  # data edits under reference-following formulas
+  'refdata': {'update': 22, 'add': 6, 'remove': 5, 'addfcol': 9, 'addref': 5, 'modformula': 2, 'reverse': 1, 'modtype': 1},
   'records': {
     'add': 12, 'update': 12, 'remove': 6, 'replace': 1, 'addcol': 1, 'addfcol': 2, 'bad': 1,
   },
@@ -724,12 +739,24 @@ def bundle(profile='general', max_ops=2):
 
 
 # A deterministic, generated "seed document" prefix so histories start from something interesting.
-def prelude():
-  """Bundles that build two tables with typed data columns, a ref, rows and formulas."""
+def prelude(focus=None):
+  """Bundles that build two tables with typed data columns, a ref, rows and formulas.
+  focus='refs': Alpha always references Beta and carries reference-following / lookup formulas."""
+  if focus == 'refs':
+    ref_forms = st.tuples(st.sampled_from([5, 5, 5, 6, 6, 18, 7, 8, 9, 11]), st.integers(0, 5), st.integers(0, 5),
+                          st.integers(0, 5)).map(list)
+    return st.fixed_dictionaries({
+      'types': st.lists(st.integers(0, len(DATA_TYPES) - 1), min_size=1, max_size=3),
+      'types2': st.lists(st.integers(0, len(DATA_TYPES) - 1), min_size=1, max_size=3),
+      'ref': st.sampled_from([1, 1, 2]),
+      'rows': st.lists(st.lists(valspec(), min_size=1, max_size=4), min_size=2, max_size=5),
+      'rows2': st.lists(st.lists(valspec(), min_size=1, max_size=4), min_size=1, max_size=3),
+      'formulas': st.lists(st.tuples(st.just(0), ref_forms).map(list), min_size=1, max_size=3),
+    })
   return st.fixed_dictionaries({
     'types': st.lists(st.integers(0, len(DATA_TYPES) - 1), min_size=2, max_size=4),
     'types2': st.lists(st.integers(0, len(DATA_TYPES) - 1), min_size=1, max_size=3),
-    'ref': st.integers(0, 3),
+    'ref': st.sampled_from([0, 1, 1, 2, 3, 3]),
     'rows': st.lists(st.lists(valspec(), min_size=1, max_size=4), min_size=0, max_size=5),
     'rows2': st.lists(st.lists(valspec(), min_size=1, max_size=4), min_size=0, max_size=4),
     'formulas': st.lists(st.tuples(st.integers(0, 1), fspec()).map(list), min_size=0, max_size=4),
@@ -771,10 +798,10 @@ def run_prelude(doc, p):
                                                'formula': formula_text(doc, tm[0]['id'], fs)}]])
 
 
-def history(profile='general', min_bundles=1, max_bundles=12, max_ops=2, with_prelude=True):
+def history(profile='general', min_bundles=1, max_bundles=12, max_ops=2, with_prelude=True, focus=None):
   d = {'bundles': st.lists(bundle(profile, max_ops), min_size=min_bundles, max_size=max_bundles)}
   if with_prelude:
-    d['prelude'] = prelude()
+    d['prelude'] = prelude(focus)
   return st.fixed_dictionaries(d)
 
 
